@@ -79,6 +79,15 @@ type Bind struct {
 	// Errors to return.
 	OpenErr error
 	SendErr error
+	// CloseErr is returned by Close AFTER the bind has really been closed
+	// (like StdNetBind.Close when a socket close fails).
+	CloseErr error
+	// SendErrFn, when non-nil, decides per Send call: it returns how many of
+	// the buffers are transmitted (logged) before the error is returned; a
+	// nil error transmits everything.  Takes precedence over SendErr.
+	SendErrFn func(bufs [][]byte, to netip.AddrPort) (int, error)
+	// CloseDelay makes the receive functions notice a Close only after this long.
+	CloseDelay time.Duration
 	// DoubleOpen counts Open calls made while already open.
 	DoubleOpen atomic.Int32
 	// AutoPort is returned for Open(0).
@@ -133,6 +142,9 @@ func (b *Bind) Open(port uint16) ([]conn.ReceiveFunc, uint16, error) {
 			b.mu.Unlock()
 			select {
 			case <-stop:
+				if d := b.CloseDelay; d > 0 {
+					time.Sleep(d)
+				}
 				return 0, net.ErrClosed
 			case ds := <-b.rx:
 				b.mu.Lock()
@@ -164,7 +176,7 @@ func (b *Bind) Close() error {
 		b.stop = nil
 	}
 	b.open = false
-	return nil
+	return b.CloseErr
 }
 
 func (b *Bind) SetMark(m uint32) error {
@@ -180,8 +192,24 @@ func (b *Bind) Send(bufs [][]byte, e conn.Endpoint) error {
 	if g := b.SendGate; g != nil {
 		g(bufs, to)
 	}
+	var partial = -1
+	var ferr error
+	if f := b.SendErrFn; f != nil {
+		partial, ferr = f(bufs, to)
+	}
 	b.mu.Lock()
 	defer b.mu.Unlock()
+	if ferr != nil {
+		now := time.Now()
+		for i, x := range bufs {
+			if i >= partial {
+				break
+			}
+			b.sent = append(b.sent, Sent{Seq: next(), T: now, To: to, Data: append([]byte{}, x...)})
+		}
+		b.log = append(b.log, BindEvent{Seq: next(), T: now, Kind: "send-error", N: partial})
+		return ferr
+	}
 	if b.SendErr != nil {
 		return b.SendErr
 	}
